@@ -8,5 +8,6 @@ RS_one == {<<1, 5>>, <<4, 4>>}
 RS_all == {<<o, n>> \in (0..7) \X (1..8) : o + n <= 9}
 RS_t == {<<0, 7>>, <<1, 4>>, <<3, 5>>, <<0, 2>>, <<2, 2>>, <<4, 3>>, <<6, 2>>, <<7, 1>>, <<5, 1>>}
 RS_t2 == RS_t \cup {<<2, 5>>, <<1, 6>>, <<0, 8>>, <<3, 2>>}
+RS_p == {<<6, 2>>, <<0, 7>>, <<3, 5>>}
 Sym == Permutations({r1, r2})
 ====
